@@ -448,14 +448,67 @@ def mutants():
     out.append(("util TYPE_DESCRIPTOR['J'] = 'int'", UTIL, table_mut))
     out.append(("dex_types TYPE_DESCRIPTOR['J'] = 'int'", DEX_TYPES, table_mut))
 
-    def guard_mut(tree):
-        f = _get_type(tree)
+    def _java_guard(f):
+        """the `if` of util.get_type whose test mentions a java/lang literal"""
         for n in ast.walk(f):
-            if isinstance(n, ast.Constant) and n.value == "Ljava/lang":
-                n.value = "Ljava"
+            if isinstance(n, ast.If) and any(isinstance(x, ast.Constant) and isinstance(x.value, str) and "java/lang" in x.value
+                                             for x in ast.walk(n.test)):
+                return n
+        return None
+
+    def guard_no_slash(tree):
+        g = _java_guard(_get_type(tree))
+        if g is None:
+            return False
+        for n in ast.walk(g.test):
+            if isinstance(n, ast.Constant) and isinstance(n.value, str) and n.value.endswith("java/lang/"):
+                n.value = n.value[:-1]
                 return True
         return False
-    out.append(("util: guard startswith('Ljava')", UTIL, guard_mut))
+    out.append(("util: guard literal loses its trailing '/' (Ljava/lang; becomes '')", UTIL, guard_no_slash))
+
+    def guard_drop_conjunct(tree):
+        g = _java_guard(_get_type(tree))
+        if g is None or not (isinstance(g.test, ast.BoolOp) and isinstance(g.test.op, ast.And) and len(g.test.values) >= 2):
+            return False
+        g.test = g.test.values[0]
+        return True
+    out.append(("util: the 'no further /' conjunct of the java.lang guard is dropped", UTIL, guard_drop_conjunct))
+
+    def slice_start(delta):
+        def t(tree):
+            g = _java_guard(_get_type(tree))
+            if g is None:
+                return False
+            for st in g.body:
+                for n in ast.walk(st):
+                    if (isinstance(n, ast.Subscript) and isinstance(n.slice, ast.Slice) and isinstance(n.slice.lower, ast.Constant)
+                            and isinstance(n.slice.lower.value, int) and n.slice.lower.value > 1):
+                        n.slice.lower = ast.Constant(n.slice.lower.value + delta)
+                        return True
+            return False
+        return t
+    out.append(("util: prefix slice starts one character early", UTIL, slice_start(-1)))
+    out.append(("util: prefix slice starts one character late", UTIL, slice_start(+1)))
+
+    def reintroduce_lstrip(tree):
+        g = _java_guard(_get_type(tree))
+        if g is None:
+            return False
+        for st in g.body:
+            if isinstance(st, ast.Assign):
+                st.value = ast.parse("atype[1:-1].lstrip('java/lang/').replace('/', '.')", mode="eval").body
+                return True
+        return False
+    out.append(("util: lstrip('java/lang/') re-introduced", UTIL, reintroduce_lstrip))
+
+    def guard_wider(tree):
+        g = _java_guard(_get_type(tree))
+        if g is None:
+            return False
+        g.test = ast.parse("atype.startswith('Ljava/lang')", mode="eval").body
+        return True
+    out.append(("util: guard is only startswith('Ljava/lang')", UTIL, guard_wider))
 
     def dex_strip_mut(tree):
         f = _get_type(tree)
@@ -493,6 +546,29 @@ def benign():
         return False
     out.append(("util: '%s[]' % x written as x + '[]'", UTIL, concat))
 
+    def count_idiom(tree):
+        f = _get_type(tree)
+        for n in ast.walk(f):
+            if (isinstance(n, ast.Compare) and len(n.ops) == 1 and isinstance(n.ops[0], ast.NotIn)
+                    and isinstance(n.left, ast.Constant) and n.left.value == "/"):
+                rest = n.comparators[0]
+                n.left = ast.Call(ast.Attribute(rest, "count", ast.Load()), [ast.Constant("/")], [])
+                n.ops = [ast.Eq()]
+                n.comparators = [ast.Constant(0)]
+                return True
+        return False
+    out.append(("util: `'/' not in rest` written as rest.count('/') == 0", UTIL, count_idiom))
+
+    def removeprefix_idiom(tree):
+        f = _get_type(tree)
+        for n in ast.walk(f):
+            if (isinstance(n, ast.Assign) and isinstance(n.value, ast.Subscript) and isinstance(n.value.slice, ast.Slice)
+                    and isinstance(n.value.slice.lower, ast.Constant) and n.value.slice.lower.value == 11):
+                n.value = ast.parse("atype[1:-1].removeprefix('java/lang/')", mode="eval").body
+                return True
+        return False
+    out.append(("util: atype[11:-1] written as atype[1:-1].removeprefix('java/lang/')", UTIL, removeprefix_idiom))
+
     def swap_branches(tree):
         f = _get_type(tree)
         for n in ast.walk(f):
@@ -508,7 +584,7 @@ def benign():
 def _edit(repo, rel, transform):
     tree = ast.parse(repo.modules[rel].text)
     if not transform(tree):
-        raise AnalysisError("mutation operator found nothing to change in %s" % rel)
+        return None   # the spelling this operator targets is not in today's tree
     ast.fix_missing_locations(tree)
     return {rel: ast.unparse(tree)}
 
@@ -521,8 +597,12 @@ def thorough(ctx):
     killed = total = 0
     survivors = []
     for name, rel, tr in mutants():
+        ed = _edit(ctx.repo, rel, tr)
+        if ed is None:
+            ctx.note("mutation operator not applicable to this tree: %s" % name)
+            continue
         total += 1
-        r2 = clone_repo(ctx.repo, _edit(ctx.repo, rel, tr))
+        r2 = clone_repo(ctx.repo, ed)
         s = Sink()
         try:
             core(r2, s)
@@ -538,8 +618,12 @@ def thorough(ctx):
     silent = btotal = 0
     noisy = []
     for name, rel, tr in benign():
+        ed = _edit(ctx.repo, rel, tr)
+        if ed is None:
+            ctx.note("benign edit not applicable to this tree: %s" % name)
+            continue
         btotal += 1
-        r2 = clone_repo(ctx.repo, _edit(ctx.repo, rel, tr))
+        r2 = clone_repo(ctx.repo, ed)
         s = Sink()
         core(r2, s)
         new = [(r, q, c) for r, q, c, m in s.failed if (r, q, c) not in base_keys]
@@ -556,3 +640,6 @@ def thorough(ctx):
         raise AnalysisError("rule lost its teeth: surviving mutants: %s" % "; ".join(survivors))
     if noisy:
         raise AnalysisError("rule fires on behaviour-preserving edits: %s" % "; ".join(noisy))
+    if total < 12 or btotal < 4:
+        raise AnalysisError("only %d mutation operators and %d benign edits apply to this tree (need >= 12 / 4): "
+                            "the mutation set no longer matches the code" % (total, btotal))
